@@ -109,6 +109,18 @@ def native_check(kind, n, env=None, seed=0):
         want = -np.mean([np.log(born(rn, b)[k]) for k, b in zip(idx, sb)])
         if not _plain(v) or abs(float(v) - want) > 1e-7 * (1 + abs(want)):
             fails.append(("NLL(sample_bases) wrong or not a float", (type(v).__name__, float(v), want)))
+        # a rotated basis measured exactly 2^n times (with arbitrary outcomes), other group sizes around it
+        rot = [b for b in strings if set(b) != {"Z"}]
+        if rot:
+            for extra in (0, 1):
+                M2 = 2 ** n + extra
+                smp = torch.tensor(rng.integers(0, 2, size=(M2 + 2, n)), dtype=torch.double)
+                sb2 = [rot[0]] * M2 + ["Z" * n, rot[-1]]
+                idx2 = [int(sum(int(x) << (n - 1 - i) for i, x in enumerate(r))) for r in smp.tolist()]
+                v = ts.NLL(st, smp, space, sample_bases=np.array([list(b) for b in sb2]))
+                want = -np.mean([np.log(born(rn, b)[k]) for k, b in zip(idx2, sb2)])
+                if not _plain(v) or abs(float(v) - want) > 1e-7 * (1 + abs(want)):
+                    fails.append(("NLL(sample_bases, one basis measured %d times) wrong" % M2, (float(v), want)))
     return fails
 
 
